@@ -28,7 +28,7 @@
 (*   - passed + failed + skipped = number run, n_total = number selected,  *)
 (*     the failed list is the failed doctests in order   (TalliesAddUp)    *)
 (*   - the summary carries n_failed; the command line entry point returns  *)
-(*     1 iff n_failed > 0                                (ExitIffFailed)   *)
+(*     a non-zero process status iff n_failed > 0        (ExitIffFailed)   *)
 (* Sessions are laid out one after the other in the log (the harness       *)
 (* projects nested sessions onto separate traces).                         *)
 (***************************************************************************)
@@ -119,7 +119,7 @@ SessExit ==
 
 MainExit ==
   /\ Is("MainExit") /\ pc = "exited"
-  /\ Ev.code = (IF nF > 0 THEN 1 ELSE 0)
+  /\ Ev.code >= 0 /\ ((Ev.code % 256) # 0) = (nF > 0)             \* what main returns is handed to sys.exit: the low 8 bits are the status
   /\ pc' = "idle" /\ l' = l + 1
   /\ UNCHANGED <<cmd, dis, named, queue, pos, nP, nF, nS, failedSeq>>
 
